@@ -34,12 +34,19 @@ class DryWorld(World):
         self.stats = {}
         self.stopped = None
         self.op_index = None
+        self.handles = {}
+        self.epoch = 0
+        self.io_epoch = 0
 
     def dry_apply(self, op):
         """Apply the model's prediction; returns 'accept' | 'reject' | 'unspec'."""
         before = self.ref.clone()
         try:
             _plan(self, op)
+            if op["op"] in ("set_ncomp",):
+                self.epoch += 1
+            if op["op"] in ("record", "stimulate", "clamp", "delete_recordings", "delete_stimuli", "delete_clamps"):
+                self.io_epoch += 1
             return "accept"
         except Reject:
             self.ref = before
@@ -193,7 +200,9 @@ def gen_op(r, dw, weights, cfg):
     if kind == "delete_recordings":
         return {"op": "delete_recordings", "view": gen_node_view(r, ref) if r.random() < 0.5 else []}
     if kind == "stimulate":
-        return {"op": "stimulate", "view": gen_node_view(r, ref), "len": cfg["L"], "seed": seed,
+        # reject fault: a further input of the same key with a different duration must be refused and leave nothing behind
+        L_ = cfg["L"] + r.choice([1, 2, -1]) if (ref.externals.get("i") and r.random() < 0.08 and cfg["L"] > 2) else cfg["L"]
+        return {"op": "stimulate", "view": gen_node_view(r, ref), "len": L_, "seed": seed,
                 "two_d": r.random() < 0.35, "pattern": r.choice([None, None, "step"]), "bad_batch": r.random() < 0.03}
     if kind == "clamp":
         if ref.syns and r.random() < cfg.get("p_syn_clamp", 0.0):
